@@ -15,7 +15,7 @@ for d in sorted(glob.glob(os.path.join(VERIF, "seeded", "C*", "meta.json"))):
     rows.append("| %s | %s | %s | %s |" % (m["name"], m.get("needs_to_manifest", ""), det, m.get("initially_missed") or "—"))
 tbl = ("| seed | change and what it needs to manifest | reported by (quick tier; 'no' = that check is not the one that sees it) | initially missed → what was strengthened |\n"
        "|---|---|---|---|\n" + "\n".join(rows))
-tbl += ("\n\n%d seeded defects from sixteen rounds of independent sub-agents (`-r2` .. `-r16`: later rounds were told which ideas had been used "
+tbl += ("\n\n%d seeded defects from seventeen rounds of independent sub-agents (`-r2` .. `-r17`: later rounds were told which ideas had been used "
         "and asked for different mechanisms). Every one is reported by the quick tier of at least one check, and by the check of the property "
         "it was written against except where the last column says otherwise. %d were missed by the then-current version of the check they "
         "target; each miss pointed at a class of cases the generator or fault plan could not reach, and the class was added (never a special case "
